@@ -83,6 +83,13 @@ func check(c Case, o *vf.Obs) error {
 	if truth >= 2 && pb.Status == solver.Indet && s1.Stats.NbDecisions >= 2 {
 		o.Nontrivial()
 	}
+	// 1b. CountModels on a solver that has already solved the problem
+	pb1b, _ := build(c)
+	s1b := solver.New(pb1b)
+	s1b.Solve()
+	if got := s1b.CountModels(); got != truth {
+		return fmt.Errorf("Solve then CountModels on the same solver = %d, the problem has %d models", got, truth)
+	}
 	// 2. Enumerate(nil, nil) on a fresh solver
 	pb2, _ := build(c)
 	if got := solver.New(pb2).Enumerate(nil, nil); got != truth {
@@ -185,6 +192,108 @@ func genHardCNF(t *rapid.T) Case {
 	return c
 }
 
+// GuardedCase: a pigeonhole formula guarded by g (g -> PHP, and not g -> every pigeonhole variable false), e free
+// extra variables and one unit clause u: exactly 2^e models by construction (g false, PHP variables false, u true),
+// but the counter has to refute PHP under g = true: hundreds of conflicts, restarts and clause-database
+// reductions happen *during* the enumeration, after models have been found and blocked.
+type GuardedCase struct {
+	Holes int  `json:"holes"`
+	Extra int  `json:"extra"`
+	NbMax int  `json:"nbmax,omitempty"`
+	Chan  bool `json:"chan"`
+}
+
+func checkGuarded(c GuardedCase, o *vf.Obs) error {
+	gs.Arm(c.NbMax, 80_000_000)
+	defer gs.Arm(0, 0)
+	holes, pigeons := c.Holes, c.Holes+1
+	np := pigeons * holes
+	g, u := np+1, np+2
+	n := np + 2 + c.Extra
+	v := func(p, h int) int { return p*holes + h + 1 }
+	var cls [][]int
+	for p := 0; p < pigeons; p++ {
+		cl := []int{-g}
+		for h := 0; h < holes; h++ {
+			cl = append(cl, v(p, h))
+		}
+		cls = append(cls, cl)
+	}
+	for h := 0; h < holes; h++ {
+		for p := 0; p < pigeons; p++ {
+			for q := p + 1; q < pigeons; q++ {
+				cls = append(cls, []int{-g, -v(p, h), -v(q, h)})
+			}
+		}
+	}
+	for x := 1; x <= np; x++ {
+		cls = append(cls, []int{g, -x})
+	}
+	cls = append(cls, []int{u})
+	want := 1 << uint(c.Extra)
+	s := solver.New(solver.ParseSliceNb(oracle.CloneCNF(cls), n))
+	got := -1
+	var delivered [][]bool
+	if c.Chan {
+		ch := make(chan []bool, 4)
+		done := make(chan struct{})
+		go func() {
+			for m := range ch {
+				delivered = append(delivered, m)
+			}
+			close(done)
+		}()
+		perr := vf.Safely(func() error { got = s.Enumerate(ch, nil); return nil })
+		if perr != nil {
+			func() { defer func() { recover() }(); close(ch) }()
+			<-done
+			return perr
+		}
+		<-done
+	} else {
+		got = s.CountModels()
+	}
+	o.ClassIf(s.Stats.NbRestarts > 0, "restart>0")
+	o.ClassIf(s.Stats.NbDeleted > 0, "reduceDB>0")
+	o.ClassIf(s.Stats.NbConflicts >= 100, "conflicts>=100")
+	if s.Stats.NbConflicts >= 100 {
+		o.Nontrivial()
+	}
+	if got != want {
+		return fmt.Errorf("count = %d, the guarded pigeonhole formula (%d holes, %d free variables) has exactly %d models", got, holes, c.Extra, want)
+	}
+	if c.Chan {
+		seen := map[uint64]bool{}
+		for _, m := range delivered {
+			if i := oracle.ModelSatisfies(cls, m); i >= 0 {
+				return fmt.Errorf("a delivered assignment falsifies clause %v", cls[i])
+			}
+			var key uint64
+			for e := 0; e < c.Extra; e++ {
+				if m[np+2+e] {
+					key |= 1 << uint(e)
+				}
+			}
+			if seen[key] {
+				return fmt.Errorf("the same model was delivered twice")
+			}
+			seen[key] = true
+		}
+		if len(delivered) != want {
+			return fmt.Errorf("%d models delivered, %d expected", len(delivered), want)
+		}
+	}
+	return nil
+}
+
+func genGuarded(t *rapid.T) GuardedCase {
+	c := GuardedCase{Holes: rapid.SampledFrom([]int{5, 6, 6}).Draw(t, "holes"), Extra: rapid.IntRange(0, 3).Draw(t, "extra"), Chan: rapid.Bool().Draw(t, "chan")}
+	if rapid.Bool().Draw(t, "low") {
+		c.NbMax = rapid.IntRange(30, 300).Draw(t, "limit")
+	}
+	return c
+}
+
 func genPB(front string) func(t *rapid.T) Case {
 	return func(t *rapid.T) Case {
 		_, ps := gen.PBConstrs(t, gen.PBOpts{MinN: 1, MaxN: 8, MaxConstrs: 4, MaxArity: 6, Card: front == "card"})
@@ -193,13 +302,15 @@ func genPB(front string) func(t *rapid.T) Case {
 }
 
 func init() {
-	tail := "; oracle = truth-table model set over the declared variables; CountModels, Enumerate(nil) and Enumerate(chan) each on a fresh solver; delivered models compared as a multiset; non-trivial = >=2 models, not decided at parse time, >=2 decisions"
+	tail := "; oracle = truth-table model set over the declared variables; CountModels, Enumerate(nil) and Enumerate(chan) each on a fresh solver, and CountModels on a solver that has already solved the problem; delivered models compared as a multiset; non-trivial = >=2 models, not decided at parse time, >=2 decisions"
 	vf.Register(
 		vf.Sub[Case]{Name: "cnf", Quick: 15000, Thorough: 200000, Gen: genCNF, Check: check, Floor: 0.3,
 			Rule: "CNF over n<=10 declared variables via ParseSliceNb/ParseCNF: no constraint, tautologies only, fully decided by units, sparse random formulas with odd clause shapes and unused variables" + tail},
 		vf.Sub[Case]{Name: "cnf-conflict-rich", Quick: 400, Thorough: 5000, Gen: genHardCNF, Check: check, Floor: 0.5,
 			Classes: map[string]float64{"conflicts>0": 0.5, "models>=16": 0.3},
 			Rule: "3-SAT at ratio 3.0..4.2 and parity systems with n-9..n-3 constraints, n in 12..18: many models and real conflicts during enumeration" + tail},
+		vf.Sub[GuardedCase]{Name: "guarded-pigeonhole", Quick: 16, Thorough: 200, Gen: genGuarded, Check: checkGuarded, Floor: 0,
+			Rule: "pigeonhole PHP(6,5)/PHP(7,6) guarded by a variable g (g -> PHP, not g -> all pigeonhole variables false), one unit clause and 0..3 free variables: exactly 2^e models by construction; CountModels or Enumerate(chan) must refute PHP under g = true in the middle of the enumeration (hundreds of conflicts, restarts, reductions with a lowered limit); non-trivial = >=100 conflicts"},
 		vf.Sub[Case]{Name: "card", Quick: 8000, Thorough: 100000, Gen: genPB("card"), Check: check, Floor: 0.15,
 			Rule: "cardinality constraints (n<=8, <=4 constraints) via ParseCardConstrs" + tail},
 		vf.Sub[Case]{Name: "pb", Quick: 8000, Thorough: 100000, Gen: genPB("pb"), Check: check, Floor: 0.15,
